@@ -209,18 +209,21 @@ package xmss
 //@   ensures bdsShape(result, height)
 
 //@ func treeHashSetup
+//@   reads addr[0:3]
 //@   trusted "BDS traversal internals: behaviour decided by the bounded label run (C01); frame and purity by the effects back end"
 //@   pure
 //@   requires paramsOK(xmssParams) && bdsShape(bdsState, xmssParams.h) && len(node) >= 32 && len(skSeed) >= 32 && len(pubSeed) >= 32 && len(addr) >= 3
 //@   assigns node[0:32], bdsAll(bdsState)
 
 //@ func bdsRound
+//@   reads addr[0:3]
 //@   trusted "BDS traversal internals: behaviour decided by the bounded label run (C01); frame and purity by the effects back end"
 //@   pure
 //@   requires paramsOK(params) && bdsShape(bdsState, params.h) && len(skSeed) >= 32 && len(pubSeed) >= 32 && leafIdx < spec.pow2(params.h)
 //@   assigns bdsAll(bdsState)
 
 //@ func bdsTreeHashUpdate
+//@   reads addr[0:3]
 //@   trusted "BDS traversal internals: behaviour decided by the bounded label run (C01); frame and purity by the effects back end"
 //@   pure
 //@   requires paramsOK(params) && bdsShape(bdsState, params.h) && len(skSeed) >= 32 && len(pubSeed) >= 32
@@ -238,17 +241,19 @@ package xmss
 
 //@ func wotsSign
 //@   requires wotsOK(params) && len(sig) >= params.keySize && len(msg) >= 32 && len(sk) >= 32 && len(pubSeed) >= 32
+//@   ensures forall k_ :: 0 <= k_ && k_ < 5 ==> addr[k_] == old(addr[k_])
 //@   assigns sig, *addr
 //@   loop 1 invariant 0 <= i && i <= params.len1
 //@   loop 2 invariant 0 <= i && i <= params.len2
 //@   loop 2 invariant forall k_ :: 0 <= k_ && k_ < params.len1 + i ==> baseW[k_] <= params.w - 1
-//@   loop 3 invariant 0 <= i && i <= params.len
+//@   loop 3 invariant 0 <= i && i <= params.len && forall k_ :: 0 <= k_ && k_ < 5 ==> addr[k_] == old(addr[k_])
 //@   loop 3 invariant forall k_ :: 0 <= k_ && k_ < params.len ==> baseW[k_] <= params.w - 1
 
 //@ func wOTSPKGen
 //@   requires wotsOK(wOTSParams) && len(pk) >= wOTSParams.keySize && len(sk) >= 32 && len(pubSeed) >= 32
+//@   ensures forall k_ :: 0 <= k_ && k_ < 5 ==> addr[k_] == old(addr[k_])
 //@   assigns pk, *addr
-//@   loop 1 invariant 0 <= i && i <= wOTSParams.len
+//@   loop 1 invariant 0 <= i && i <= wOTSParams.len && forall k_ :: 0 <= k_ && k_ < 5 ==> addr[k_] == old(addr[k_])
 
 //@ func genLeafWOTS
 //@   requires xmssParams.n == 32 && wotsOK(xmssParams.wotsParams) && len(leaf) >= 32 && len(skSeed) >= 32 && len(pubSeed) >= 32
@@ -257,7 +262,7 @@ package xmss
 //@ func XMSSFastGenKeyPair
 //@   props C02 C08 C09 C06
 //@   requires paramsOK(xmssParams) && len(pk) == 64 && len(sk) == 132 && bdsShape(bdsState, xmssParams.h)
-//@   ensures[C02,C08,C09] idxOf(sk) == 0
+//@   ensures idxOf(sk) == 0
 //@   assigns pk, sk, bdsAll(bdsState)
 
 //@ func xmssFastUpdate
@@ -265,15 +270,15 @@ package xmss
 //@   requires paramsOK(params) && len(sk) == 132 && bdsShape(bdsState, params.h)
 //@   panics "index too high" when newIdx >= spec.pow2(params.h)
 //@   panics "cannot rewind" when newIdx < spec.pow2(params.h) && newIdx < idxOf(sk)
-//@   ensures[C02] result == 0 && idxOf(sk) == newIdx
+//@   ensures result == 0 && idxOf(sk) == newIdx
 //@   assigns sk[0:4], bdsAll(bdsState)
 //@   loop 1 invariant currentIdx <= j && j <= newIdx && currentIdx == old(idxOf(sk)) && numElems == spec.pow2(params.h)
 
 //@ func xmssFastSignMessage
 //@   props C02 C08 C01 C06
 //@   requires paramsOK(params) && len(sk) == 132 && bdsShape(bdsState, params.h) && idxOf(sk) < spec.pow2(params.h)
-//@   ensures[C02] idxOf(sk) == old(idxOf(sk)) + 1
-//@   ensures[C02] !iserr(result1) ==> len(result0) == 2180 + 32*params.h && idxOf(result0) == old(idxOf(sk))
+//@   ensures idxOf(sk) == old(idxOf(sk)) + 1
+//@   ensures !iserr(result1) ==> len(result0) == 2180 + 32*params.h && idxOf(result0) == old(idxOf(sk))
 //@   assigns sk[0:4], bdsAll(bdsState)
 //@   loop 1 invariant 0 <= i && i <= n && n == 32 && idxOf(sigMsg) == idx
 
@@ -282,14 +287,14 @@ package xmss
 //@   pure
 //@   requires desc.height <= 30
 //@   panics "For BDS traversal, H - K must be even, with H > K >= 2!" when desc.height <= 2 || desc.height % 2 == 1
-//@   ensures[C02,C08,C09] xmssInv(result) && idxOf(result.sk) == 0 && result.height == desc.height && result.hashFunction == desc.hashFunction && result.seed[0:48] == seed[0:48] && result.desc.hashFunction == desc.hashFunction && result.desc.signatureType == desc.signatureType && result.desc.height == desc.height && result.desc.addrFormatType == desc.addrFormatType
+//@   ensures xmssInv(result) && idxOf(result.sk) == 0 && result.height == desc.height && result.hashFunction == desc.hashFunction && result.seed[0:48] == seed[0:48] && result.desc.hashFunction == desc.hashFunction && result.desc.signatureType == desc.signatureType && result.desc.height == desc.height && result.desc.addrFormatType == desc.addrFormatType
 
 //@ func XMSS.SetIndex
 //@   props C02 C08
 //@   requires xmssInv(x)
 //@   panics "index too high" when newIndex >= spec.pow2(x.height)
 //@   panics "cannot rewind" when newIndex < spec.pow2(x.height) && newIndex < idxOf(x.sk)
-//@   ensures[C02] xmssInv(x) && idxOf(x.sk) == newIndex
+//@   ensures xmssInv(x) && idxOf(x.sk) == newIndex
 //@   assigns x.sk[0:4], bdsAll(x.bdsState)
 
 //@ func XMSS.GetIndex
@@ -299,13 +304,14 @@ package xmss
 //@   props C02 C08 C01
 //@   requires xmssInv(x)
 //@   panics "index too high" when idxOf(x.sk) >= spec.pow2(x.height)
-//@   ensures[C02] xmssInv(x) && idxOf(x.sk) == old(idxOf(x.sk)) + 1
-//@   ensures[C02] !iserr(result1) ==> len(result0) == 2180 + 32*x.height && idxOf(result0) == old(idxOf(x.sk))
+//@   ensures xmssInv(x) && idxOf(x.sk) == old(idxOf(x.sk)) + 1
+//@   ensures !iserr(result1) ==> len(result0) == 2180 + 32*x.height && idxOf(result0) == old(idxOf(x.sk))
 //@   assigns x.sk[0:4], bdsAll(x.bdsState)
 
 // ---- C09: recovery lemmas (see zz_lemmas_verif.go) ----
 
 //@ pred bdsEq(a, b) := a.stack[0:len(a.stack)] == b.stack[0:len(b.stack)] && a.stackOffset == b.stackOffset && a.stackLevels[0:len(a.stackLevels)] == b.stackLevels[0:len(b.stackLevels)] && a.auth[0:len(a.auth)] == b.auth[0:len(b.auth)] && a.keep[0:len(a.keep)] == b.keep[0:len(b.keep)] && a.treeHash == b.treeHash && a.retain[0:len(a.retain)] == b.retain[0:len(b.retain)] && a.nextLeaf == b.nextLeaf
+//@ pred bdsEqS(a, b) := spec.sub(a.stack, len(a.stack)) == spec.sub(b.stack, len(b.stack)) && a.stackOffset == b.stackOffset && spec.sub(a.stackLevels, len(a.stackLevels)) == spec.sub(b.stackLevels, len(b.stackLevels)) && spec.sub(a.auth, len(a.auth)) == spec.sub(b.auth, len(b.auth)) && spec.sub(a.keep, len(a.keep)) == spec.sub(b.keep, len(b.keep)) && a.treeHash == b.treeHash && spec.sub(a.retain, len(a.retain)) == spec.sub(b.retain, len(b.retain)) && a.nextLeaf == b.nextLeaf
 //@ pred sameKey(a, b) := a.sk[0:132] == b.sk[0:132] && a.height == b.height && a.hashFunction == b.hashFunction && a.seed[0:48] == b.seed[0:48] && a.desc.hashFunction == b.desc.hashFunction && a.desc.signatureType == b.desc.signatureType && a.desc.height == b.desc.height && a.desc.addrFormatType == b.desc.addrFormatType && bdsEq(a.bdsState, b.bdsState)
 
 //@ func NewXMSSFromSeed
@@ -346,3 +352,35 @@ package xmss
 //@   loop 1 invariant 0 <= i && i <= 3 && forall k_ :: 0 <= k_ && k_ < i ==> output[k_] == desc[k_]
 //@   loop 2 invariant 0 <= i && i <= 32 && offset == 3 && (forall k_ :: 0 <= k_ && k_ < 3 ==> output[k_] == desc[k_]) && forall k_ :: 0 <= k_ && k_ < i ==> output[3+k_] == x.sk[100+k_]
 //@   loop 3 invariant 0 <= i && i <= 32 && offset == 35 && (forall k_ :: 0 <= k_ && k_ < 3 ==> output[k_] == desc[k_]) && (forall k_ :: 0 <= k_ && k_ < 32 ==> output[3+k_] == x.sk[100+k_]) && forall k_ :: 0 <= k_ && k_ < i ==> output[35+k_] == x.sk[68+k_]
+
+// ---- C08: path independence of the traversal state (lemma functions in zz_lemmas_verif.go) ----
+
+//@ func treeHashUpdate
+//@   reads addr[0:3]
+//@   trusted "BDS traversal internals: only named here so that the `reads addr[0:3]` clause of bdsTreeHashUpdate can be checked transitively"
+
+// NOT CLAIMED (tag C08X is no property): the product-program lemma is well-formed and every argument of the two
+// pure traversal calls is provably pairwise equal, but z3/cvc5 do not decide the resulting VCs within the time
+// limits (DESIGN.md, C08).  Kept for `govc func xmss.verifLemmaSignStepEqualsUpdateStep -p C08X`.
+//@ func verifLemmaSignStepEqualsUpdateStep
+//@   props C08X
+//@   inlines xmss.xmssFastSignMessage xmss.xmssFastUpdate
+//@   unroll xmss.xmssFastUpdate 1 1
+//@   requires paramsOK(params) && len(skA) == 132 && len(skB) == 132 && bdsShape(bdsA, params.h) && bdsShape(bdsB, params.h)
+//@   requires skA[0:132] == skB[0:132] && bdsEqS(bdsA, bdsB) && idxOf(skB) + 1 < spec.pow2(params.h)
+//@   ensures[C08X] skA[0:132] == skB[0:132]
+//@   ensures[C08X] spec.sub(bdsA.stack, len(bdsA.stack)) == spec.sub(bdsB.stack, len(bdsB.stack))
+//@   ensures[C08X] spec.sub(bdsA.stackLevels, len(bdsA.stackLevels)) == spec.sub(bdsB.stackLevels, len(bdsB.stackLevels))
+//@   ensures[C08X] spec.sub(bdsA.auth, len(bdsA.auth)) == spec.sub(bdsB.auth, len(bdsB.auth))
+//@   ensures[C08X] spec.sub(bdsA.keep, len(bdsA.keep)) == spec.sub(bdsB.keep, len(bdsB.keep))
+//@   ensures[C08X] spec.sub(bdsA.retain, len(bdsA.retain)) == spec.sub(bdsB.retain, len(bdsB.retain))
+//@   ensures[C08X] bdsA.stackOffset == bdsB.stackOffset && bdsA.treeHash == bdsB.treeHash && bdsA.nextLeaf == bdsB.nextLeaf
+//@   assigns skA[0:4], skB[0:4], bdsAll(bdsA), bdsAll(bdsB)
+
+//@ func verifLemmaUpdateToCurrentIsIdentity
+//@   props C08
+//@   inlines xmss.xmssFastUpdate
+//@   unroll xmss.xmssFastUpdate 1 0
+//@   requires paramsOK(params) && len(sk) == 132 && bdsShape(bds, params.h) && idxOf(sk) < spec.pow2(params.h)
+//@   ensures[C08] sk[0:132] == old(sk[0:132]) && bdsEq(bds, old(bds))
+//@   assigns sk[0:4], bdsAll(bds)
